@@ -64,3 +64,11 @@ def context_cfg(kind: str, *, threads=2, progs="{1, 2, 3, 4}", warmth='{"cold", 
 # DateTime.tla: DatePolicy "repaired" after the fix: commit for F7
 def datetime_variant() -> str:
     return os.environ.get("XV_DATE_VARIANT", "repaired")
+
+
+# RoundTrip.tla: MissingReqPolicy "ParserError" after the fix: commit for F5
+ROUNDTRIP = {"shipped": {"MissingReqPolicy": "TypeError"}, "repaired": {"MissingReqPolicy": "ParserError"}}
+
+
+def roundtrip_variant() -> dict:
+    return ROUNDTRIP[os.environ.get("XV_RT_VARIANT", "repaired")]
